@@ -13,7 +13,7 @@ import (
 func main() {
 	t0 := time.Now()
 	cfg := &packages.Config{Mode: packages.LoadAllSyntax, Dir: "/repo", BuildFlags: []string{"-tags=verif"},
-		Env: append(os.Environ(), "GOFLAGS=-mod=mod", "GOPROXY=off"),
+		Env:     append(os.Environ(), "GOFLAGS=-mod=mod", "GOPROXY=off"),
 		Overlay: map[string][]byte{"/repo/zz_verif_h.go": []byte("//go:build verif\npackage goatlang\nfunc VerifX() int { return len(symbols) }\n")}}
 	pkgs, err := packages.Load(cfg, ".")
 	if err != nil {
